@@ -15,6 +15,7 @@ import (
 	"tags.cncf.io/container-device-interface/pkg/cdi"
 	specs "tags.cncf.io/container-device-interface/specs-go"
 	"tags.cncf.io/container-device-interface/verifharness/gen"
+	"tags.cncf.io/container-device-interface/verifharness/model"
 	"tags.cncf.io/container-device-interface/verifharness/stats"
 )
 
@@ -25,8 +26,11 @@ type c09Env struct {
 
 // specImage is the canonical image of a Spec: its JSON encoding (omitempty
 // makes nil and empty lists/maps equal; list order is preserved).
+// specImage is the JSON image of an in-memory Spec used wherever two Specs are compared field by field. It is
+// produced by the harness's own serialiser (model.SpecTree, written from the specification) and not by marshalling
+// with the struct tags of the code under test: a member that the code silently fails to persist shows as a difference.
 func specImage(s *specs.Spec) string {
-	b, err := json.Marshal(s)
+	b, err := json.Marshal(model.SpecTree(s))
 	if err != nil {
 		return "MARSHAL-ERROR: " + err.Error()
 	}
